@@ -37,6 +37,8 @@ type Proc struct {
 	gates map[string]bool
 	mu    sync.Mutex
 	quit  chan struct{}
+
+	stopOnce sync.Once
 }
 
 // Sched owns the procs.
@@ -147,9 +149,25 @@ func (p *Proc) Release() error {
 	return nil
 }
 
+// StopAll terminates the goroutines of all procs that are idle (procs still inside an operation are left).
+func (s *Sched) StopAll() int {
+	s.mu.Lock()
+	list := append([]*Proc(nil), s.list...)
+	s.mu.Unlock()
+	left := 0
+	for _, p := range list {
+		if p.Busy() {
+			left++
+			continue
+		}
+		p.stopOnce.Do(func() { close(p.quit) })
+	}
+	return left
+}
+
 // Stop terminates an idle proc's goroutine.
 func (p *Proc) Stop() {
-	close(p.quit)
+	p.stopOnce.Do(func() { close(p.quit) })
 }
 
 var blockedReasons = map[string]bool{
